@@ -1,22 +1,24 @@
 #!/usr/bin/env python3
 """Runs the property checks against each confirmed seeded change in a scratch worktree.
-usage: run_seeds.py SEED_OUT_DIR [ids...]   (results: /tmp/sv/seedrun_results.json)"""
+usage: run_seeds.py SEED_OUT_DIR... [ids...]   (results: /tmp/sv/seedrun_results.json)"""
 import json, os, re, subprocess, sys
-OUT = sys.argv[1]
+OUTS = [a for a in sys.argv[1:] if os.path.isdir(a)]
 WT = '/tmp/sv/seedrun'
 RES = '/tmp/sv/seedrun_results.json'
 HERE = os.path.dirname(os.path.dirname(os.path.abspath(__file__)))
-env = dict(os.environ, VERIF_VX='/verif/target/release/vx', VERIF_REPO=WT, VERIF_WORK='/tmp/sv/work', VERIF_EVIDENCE='/tmp/sv/evidence', VERIF_REPLAYS='/tmp/sv/replays')
+env = dict(os.environ, VERIF_VX='/verif/target/release/vx', VERIF_REPO=WT, VERIF_WORK='/tmp/sv/work', VERIF_EVIDENCE='/tmp/sv/evidence', VERIF_REPLAYS='/tmp/sv/replays', VERIF_BOUNDED_IN_ALL='1', VERIF_REPLAY_TARGET='/tmp/sv/rptarget')
 if not os.path.exists(WT):
     subprocess.run(f'git -C /repo worktree add -q --detach {WT} HEAD', shell=True, check=True)
 conf = json.load(open('/tmp/sv/results.json'))
 res = json.load(open(RES)) if os.path.exists(RES) else {}
-ids = sys.argv[2:] or sorted(k for k, v in conf.items() if v.get('confirmed'))
+ids = [a for a in sys.argv[1:] if not os.path.isdir(a)] or sorted(k for k, v in conf.items() if v.get('confirmed'))
 ALL = '--all' in sys.argv
 for sid in ids:
     if sid.startswith('--') or (sid in res and not os.environ.get('FORCE')):
         continue
-    d = os.path.join(OUT, sid)
+    d = next((os.path.join(o, sid) for o in OUTS if os.path.exists(os.path.join(o, sid, 'patch.diff'))), None)
+    if d is None:
+        continue
     subprocess.run('git checkout -q -- . && git clean -fdq', shell=True, cwd=WT)
     a = subprocess.run(f'git apply {d}/patch.diff', shell=True, cwd=WT, capture_output=True, text=True)
     if a.returncode != 0:
@@ -26,7 +28,7 @@ for sid in ids:
     meta = json.load(open(os.path.join(d, 'meta.json')))
     r = {'property': prop, 'checks': {}}
     c = subprocess.run(['python3', '-m', 'vf.check', '--all'], cwd=HERE, env=env, capture_output=True, text=True)
-    lines = [l for l in c.stdout.split('\n') if l.startswith(('VIOLATION', 'INCONCLUSIVE', 'KNOWN'))]
+    lines = [l for l in c.stdout.split('\n') if l.startswith(('VIOLATION', 'INCONCLUSIVE', 'KNOWN', 'BOUNDED'))]
     summ = [l for l in c.stdout.split('\n') if l.startswith('SUMMARY')]
     if summ:
         for kv in summ[0].split()[1:]:
@@ -34,7 +36,7 @@ for sid in ids:
             r['checks'][k] = {'exit': int(v)}
     else:
         r['error'] = c.stdout[-1500:] + c.stderr[-1500:]
-    r['lines'] = [l[:300] for l in lines][:12]
+    r['lines'] = [l[:400] for l in lines if l.startswith('VIOLATION')][:10] + [l[:300] for l in lines if not l.startswith('VIOLATION')][:6]
     res[sid] = r
     json.dump(res, open(RES, 'w'), indent=1)
     print(sid, 'own=%s' % r['checks'].get(prop, {}).get('exit'), 'caught_by=' + ','.join(p for p, v in r['checks'].items() if v['exit'] == 1), 'inconcl=' + ','.join(p for p, v in r['checks'].items() if v['exit'] == 2), flush=True)
